@@ -14,7 +14,7 @@ SHARD = 150
 RULE = ("(a) exhaustive: every boolean mask of every shape with H*W <= 6 (quick) / <= 8 (thorough), uniform sub-size 1, 2, 4 "
         "(+3 under tolerance), through OverSamplerUniform (.over_sampled_grid, .slim_for_sub_slim, .binned_array_2d_from, "
         ".sub_pixel_areas, .sub_mask_native_for_sub_mask_slim) and the util functions; (b) random masks up to 6x6 with <= 16 "
-        "unmasked pixels, anisotropic dyadic pixel scales, origins k/4, per-pixel sub-size maps from {1,2,4,8}, user functions "
+        "unmasked pixels, anisotropic dyadic pixel scales, origins k/4, per-pixel sub-size maps from {1,2,4,8} (int- and float-typed), user functions "
         "= random polynomials of degree <= 3 in (y|abs y, x|abs x) with coefficients k/4 (exact in double), through "
         "OverSamplerUniform.array_via_func_from, @over_sample on Grid2D.from_mask / GridsDataset grids with "
         "OverSamplingUniform(int | Array2D) and OverSamplingIterate, and OverSamplerIterate.array_via_func_from with "
@@ -24,8 +24,8 @@ RULE = ("(a) exhaustive: every boolean mask of every shape with H*W <= 6 (quick)
         "(exact=false, 1e-9): sub-sizes 3,5,6,7 and pixel scales 3/2, 3, 0.1. Iterative cases whose threshold decision lies "
         "within 1e-6 of the boundary (but not exactly on it) are skipped and counted. distinct = distinct JSON input.")
 EXHAUSTIVE = {
-    "quick": "all boolean masks of all shapes with H*W <= 6 (394 masks) x uniform sub-size {1,2,4}: grid, slim_for_sub_slim, "
-             "binning of distinct integers",
+    "quick": "all boolean masks of all shapes with H*W <= 6 (394 masks): over-sampled grid at uniform sub-size 1, 2 and 4; "
+             "slim_for_sub_slim and binning of distinct integers at one of these sub-sizes per mask (rotating)",
     "thorough": "all boolean masks of all shapes with H*W <= 8 x uniform sub-size {1,2,4}",
 }
 TRUSTED = ["correspondence harness harness/c09.py (the user function is the SAME coefficient list on both sides: numpy evaluation "
@@ -190,8 +190,9 @@ def gen_inputs(tier, rng):
                     via = "class" if (n > 0 and i % 3) else "util"
                     ps, og = [["1", "1"], ["2", "1/2"], ["1/4", "4"]][i % 3], [["0", "0"], ["1/4", "-1/2"], ["-3/4", "2"]][(i // 3) % 3]
                     yield {"op": "grid", "m": m, "ps": ps, "og": og, "ss": [s] * n, "via": via, "int": via == "class"}
-                    yield {"op": "slimsub", "m": m, "ss": [s] * n, "via": via, "int": via == "class"}
-                    yield {"op": "bin", "m": m, "ss": [s] * n, "arr": [str(3 * k - 7) for k in range(n * s * s)], "via": via, "int": via == "class"}
+                    if big or i % 3 == 0:      # quick tier: index table and binning at one (rotating) sub-size per mask
+                        yield {"op": "slimsub", "m": m, "ss": [s] * n, "via": via, "int": via == "class"}
+                        yield {"op": "bin", "m": m, "ss": [s] * n, "arr": [str(3 * k - 7) for k in range(n * s * s)], "via": via, "int": via == "class"}
                 if n > 0 and i % 4 == 0:
                     yield {"op": "grid", "m": m, "ps": ["3/2", "1"], "og": ["1/4", "0"], "ss": [3] * n, "via": "class", "int": True}
                     yield {"op": "nativesub", "m": m, "ss": [2] * n, "via": "class", "int": True}
@@ -203,19 +204,20 @@ def gen_inputs(tier, rng):
         uniform = rng.random() < 0.3
         ss = [rng.choice([1, 2, 4, 8])] * n if uniform else [rng.choice([1, 1, 2, 2, 4, 8]) for _ in range(n)]
         via = rng.choice(["class", "util"])
-        yield {"op": "grid", "m": m, "ps": ps, "og": og, "ss": ss, "via": via, "int": uniform and via == "class"}
-        yield {"op": "slimsub", "m": m, "ss": ss, "via": via, "int": False}
-        yield {"op": "nativesub", "m": m, "ss": ss, "via": via, "int": False}
+        fl = via == "class" and rng.random() < 0.4          # float-typed per-pixel map
+        yield {"op": "grid", "m": m, "ps": ps, "og": og, "ss": ss, "via": via, "int": uniform and via == "class" and not fl, "fl": fl}
+        yield {"op": "slimsub", "m": m, "ss": ss, "via": via, "int": False, "fl": fl}
+        yield {"op": "nativesub", "m": m, "ss": ss, "via": via, "int": False, "fl": fl}
         tot = sum(s * s for s in ss)
-        yield {"op": "bin", "m": m, "ss": ss, "arr": [fs(F(rng.randint(-64, 64), 8)) for _ in range(tot)], "via": via, "int": False}
-        yield {"op": "areas", "m": m, "ps": ps, "ss": ss}
+        yield {"op": "bin", "m": m, "ss": ss, "arr": [fs(F(rng.randint(-64, 64), 8)) for _ in range(tot)], "via": via, "int": False, "fl": fl}
+        yield {"op": "areas", "m": m, "ps": ps, "ss": ss, "fl": fl}
         f = rand_poly(rng)
-        yield {"op": "viafunc", "m": m, "ps": ps, "og": og, "ss": ss, "f": f}
+        yield {"op": "viafunc", "m": m, "ps": ps, "og": og, "ss": ss, "f": f, "fl": fl}
         # decorator: uniform int / map / all-ones map / dataset grids
         r = rng.random()
         if r < 0.3: os = {"kind": "int", "s": rng.choice([1, 2, 4, 8])}
         elif r < 0.45: os = {"kind": "map", "ss": [1] * n}
-        else: os = {"kind": "map", "ss": ss}
+        else: os = {"kind": "map", "ss": ss, "fl": rng.random() < 0.4}
         yield {"op": "decor", "m": m, "ps": ps, "og": og, "os": os, "f": rand_poly(rng), "via": rng.choice(["from_mask", "dataset"])}
     # dataset pixelization default (sub_size 4)
     for _ in range(40 if big else 8):
@@ -303,7 +305,8 @@ def run_case(inp):
     def sampler(ss, as_int):
         mask = mk_mask()
         if as_int and ss: return OverSamplerUniform(mask=mask, sub_size=int(ss[0]))
-        return OverSamplerUniform(mask=mask, sub_size=aa.Array2D(values=np.array(ss, dtype=int), mask=mask))
+        # float-typed maps are what OverSamplingUniform.from_radial_bins / from_adaptive_scheme build (repo fix edc1970, found by C06)
+        return OverSamplerUniform(mask=mask, sub_size=aa.Array2D(values=np.array(ss, dtype=float if inp.get("fl") else int), mask=mask))
     ss = inp.get("ss"); ssa = np.array(ss, dtype=int) if ss is not None else None
     out = None; coq = None; finding = None; nontrivial = True
     ex = is_exact(inp.get("ps", ["1", "1"]), ss or [])
@@ -374,7 +377,7 @@ def run_case(inp):
                                                        sub_steps=list(os["steps"])).array_via_func_from(func, None))
         else:
             if os["kind"] == "int": osobj = OverSamplingUniform(sub_size=int(os["s"]))
-            elif os["kind"] == "map": osobj = OverSamplingUniform(sub_size=aa.Array2D(values=np.array(os["ss"], dtype=int), mask=mask))
+            elif os["kind"] == "map": osobj = OverSamplingUniform(sub_size=aa.Array2D(values=np.array(os["ss"], dtype=float if os.get("fl") else int), mask=mask))
             else: osobj = OverSamplingIterate(fractional_accuracy=fl(os["thr"]), relative_accuracy=fl(os["rel"]), sub_steps=list(os["steps"]))
             if inp["via"] == "dataset": grid = GridsDataset(mask=mask, over_sampling=OverSamplingDataset(uniform=osobj)).uniform
             else: grid = aa.Grid2D.from_mask(mask=mask, over_sampling=osobj)
